@@ -19,7 +19,7 @@ REPO = os.environ.get("VERIF_REPO", "/repo")
 GUARD = "GUANZHI_GMSSL_VERIF"
 NCPU = int(os.environ.get("VERIF_NCPU", "16"))
 MEM_KB = int(os.environ.get("VERIF_MEM_KB", str(12 * 1024 * 1024)))   # ulimit -v per cbmc
-WORKROOT = os.path.join(VERIF, ".work")
+WORKROOT = os.path.join(VERIF, ".work", "run%d" % os.getpid())   # one scratch root per invocation
 # mutant / seeded runs (VERIF_REPO set) write their evidence and replays elsewhere so that committed evidence stays that of /repo
 OUTROOT = os.environ.get("VERIF_OUT", VERIF)
 
@@ -216,7 +216,10 @@ def cbmc_cmd(job, gb, trace=False, prop=None):
 
 def parse_cbmc_json(path):
     """returns (results list, messages list, status) — tolerant of truncated output"""
-    raw = open(path, "rb").read().decode("utf-8", "replace")
+    try:
+        raw = open(path, "rb").read().decode("utf-8", "replace")
+    except OSError as e:
+        return [], [("ERROR", "cbmc output missing: %s" % e)], None
     try:
         data = json.loads(raw)
     except Exception:
@@ -677,10 +680,11 @@ def check(prop, tier, pat=None, keep=False):
     ok = sum(1 for o in outs if o["status"] == "ok")
     print("SUMMARY property=%s tier=%s jobs=%d ok=%d failed=%d undecided=%d obligations=%d discharged=%d wall=%.1fs" % (
         prop, tier, len(outs), ok, sum(1 for o in outs if o["status"] == "failed"), len(undecided), n_obl, n_dis, time.time() - t0))
-    try:
-        os.rmdir(WORKROOT)
-    except OSError:
-        pass
+    for d in (WORKROOT, os.path.dirname(WORKROOT)):
+        try:
+            os.rmdir(d)
+        except OSError:
+            pass
     return rc
 
 
